@@ -321,3 +321,46 @@ class audit:
 
 def fsdecode(p):
     return p.decode("utf-8", "surrogateescape") if isinstance(p, bytes) else p
+
+
+# ---------------------------------------------------------------------------
+# recording handler: what selector / search string does a protocol hand to the handlers?
+
+_rec_log = []
+
+
+def _make_recorder():
+    from pygopherd.handlers.base import BaseHandler
+    from pygopherd import gopherentry
+
+    class VerifRecorder(BaseHandler):
+        def isrequestforme(self):
+            _rec_log.append((self.selector, self.searchrequest))
+            return True
+
+        def getentry(self):
+            e = gopherentry.GopherEntry(self.selector, self.config)
+            e.type = "0"
+            e.mimetype = "text/plain"
+            e.name = "rec"
+            return e
+
+        def write(self, wfile):
+            wfile.write(b"REC")
+    return VerifRecorder
+
+
+def recorder_config(root="/nonexistent-root", **kw):
+    """A configuration whose only handler records (selector, searchrequest)."""
+    if not hasattr(_hm, "VerifRecorder"):
+        _hm.VerifRecorder = _make_recorder()
+    return make_config(root, "[VerifRecorder]", **kw)
+
+
+def parse_via_recorder(req, cfg, tls=False):
+    """-> (selector, search, Resp).  selector is None when no handler was consulted."""
+    del _rec_log[:]
+    r = request(req, cfg, tls=tls)
+    if _rec_log:
+        return _rec_log[0][0], _rec_log[0][1], r
+    return None, None, r
